@@ -50,6 +50,38 @@ type Spec struct {
 	Outside     []string  `json:"outside_claim"`
 	Bounds      []string  `json:"bounds"`
 	ExtraPkgs   []string  `json:"extra_pkgs,omitempty"`
+	Models      []string  `json:"models,omitempty"` // contract models replacing third-party modules ("bart")
+}
+
+// modelFlags prepares an alternate go.mod that replaces the modelled third-party modules by the contract models
+// under /verif/models (files inside GOMODCACHE cannot be overlaid) and returns the build flags selecting it.
+func modelFlags(sp *Spec) ([]string, error) {
+	if len(sp.Models) == 0 {
+		return nil, nil
+	}
+	dir := filepath.Join(verifDir, "build", "modfile-"+sp.ID)
+	if err := os.MkdirAll(dir, 0o755); err != nil {
+		return nil, err
+	}
+	mod, err := os.ReadFile(filepath.Join(repoDir, "go.mod"))
+	if err != nil {
+		return nil, err
+	}
+	sum, _ := os.ReadFile(filepath.Join(repoDir, "go.sum"))
+	text := string(mod) + "\n"
+	for _, m := range sp.Models {
+		switch m {
+		case "bart":
+			text += "replace github.com/gaissmai/bart => " + filepath.Join(verifDir, "models", "bart") + "\n"
+		default:
+			return nil, fmt.Errorf("unknown model %q", m)
+		}
+	}
+	if err := os.WriteFile(filepath.Join(dir, "go.mod"), []byte(text), 0o644); err != nil {
+		return nil, err
+	}
+	os.WriteFile(filepath.Join(dir, "go.sum"), sum, 0o644)
+	return []string{"-modfile=" + filepath.Join(dir, "go.mod")}, nil
 }
 
 type Finding struct {
@@ -166,7 +198,11 @@ func loadProgram(sp *Spec, propDir string) (*loaded, error) {
 		}
 		overlay[filepath.Join(pkgDir, "zz_verif_"+filepath.Base(f))] = data
 	}
-	cfg := &packages.Config{Mode: packages.LoadAllSyntax, Dir: repoDir, Overlay: overlay,
+	flags, err := modelFlags(sp)
+	if err != nil {
+		return nil, err
+	}
+	cfg := &packages.Config{Mode: packages.LoadAllSyntax, Dir: repoDir, Overlay: overlay, BuildFlags: flags,
 		Env: append(os.Environ(), "GOFLAGS=-mod=mod", "GOPROXY=off", "GOSUMDB=off", "GOTOOLCHAIN=local", "CGO_ENABLED=0")}
 	pats := []string{"./" + sp.Pkg}
 	pats = append(pats, sp.ExtraPkgs...)
